@@ -101,7 +101,6 @@ def static_features(prog):
 SWITCH_KEY = {
     'sqlite_count_empty_is_zero': 'C02/sqlite-empty-aggregate/Count',
     'sqlite_list_empty_is_empty': 'C02/sqlite-empty-aggregate/List',
-    'sqlite_set_empty_is_empty': 'C02/sqlite-empty-aggregate/Set',
     'sqlite_list_keeps_nulls': 'C02/sqlite-null-elements/List',
     'sqlite_set_keeps_nulls': 'C02/sqlite-null-elements/Set',
 }
